@@ -48,7 +48,7 @@ PROPS = {
 
 # model branches every run must reach (engine:branch); a branch the implementation can no longer reach
 # means it no longer behaves like the model on the prelude's representative.
-PF_FLOOR = ['proxyflow:noCookie', 'proxyflow:invalidSession', 'proxyflow:wrongIdP', 'proxyflow:wrongUpstream', 'proxyflow:lifetimeExpired',
+PF_FLOOR = ['proxyflow:overlap/overlapped', 'proxyflow:noCookie', 'proxyflow:invalidSession', 'proxyflow:wrongIdP', 'proxyflow:wrongUpstream', 'proxyflow:lifetimeExpired',
             'proxyflow:fresh/ok', 'proxyflow:fresh/validatorDenied', 'proxyflow:refresh/ok', 'proxyflow:refresh/error', 'proxyflow:validate/ok', 'proxyflow:validate/false',
             'proxyflow:validate/validatorDenied', 'proxyflow:whitelisted', 'proxyflow:misdirected', 'proxyflow:ping', 'proxyflow:clean-redirect',
             'proxyflow:signout', 'proxyflow:robots', 'proxyflow:cb/login', 'proxyflow:cb/denied', 'proxyflow:cb/mismatch', 'proxyflow:cb/sameCiphertext',
